@@ -159,6 +159,7 @@ def gen_recipe(rng: Rng, tier: str, idx: int) -> dict:
             e = rng.choice(big)
             e["kind"] = "lazy_fail"
             e["fail_with"] = rng.choice(["RuntimeError", "MemoryError", "ValueError"])
+    cfg["preexisting_readonly"] = rng.sub("ro").chance(0.35)   # stale destination files without write permission (0444)
     return {"idx": idx, "inits": inits, "uninit": uninit, "cfg": cfg, "extras": extras}
 
 
